@@ -26,7 +26,7 @@ Print Assumptions C08_step_preserves_frame_discipline.
 Theorem C08_guard_resets : forall P init fr s,
   (init < length (tasks s))%nat -> (p_maxstack P < Z.of_nat (length (tasks s)))%Z ->
   let c' := step P (mkC MExecLoop (FExec init :: fr) s) in
-  c_mode c' = MUnwind E_RUNTIME /\ tasks (c_st c') = [] /\ sb (c_st c') = [] /\ active (c_st c') = None.
+  c_mode c' = MUnwind E_RUNTIME /\ tasks (c_st c') = [] /\ sb (c_st c') = [] /\ active (c_st c') = active s.
 Proof. exact guard_resets. Qed.
 Print Assumptions C08_guard_resets.
 
